@@ -29,7 +29,7 @@ EXPLANATION = (
     "the rejection path of parse_selection.__call__ is a CFG dominance check.")
 NOT_DECIDED = ["pyparsing's own matching behaviour (packrat cache, Keyword boundaries)", "evaluation of the compiled lambda on a topology (run-time)"]
 ASSUMPTIONS = ["pyparsing.infixNotation gives earlier levels higher precedence and treats a MatchFirst of literals as one operator level"]
-FLOORS = {"C12-R1": 30, "C12-R2": 19, "C12-R3": 10, "C12-R4": 4, "C12-R5": 4, "C12-R6": 7, "C12-R7": 3, "C12-R8": 6}
+FLOORS = {"C12-R1": 30, "C12-R2": 19, "C12-R3": 10, "C12-R4": 4, "C12-R5": 4, "C12-R6": 7, "C12-R7": 3, "C12-R8": 8}
 
 SEL = "mdtraj/core/selection.py"
 TOP = "mdtraj/core/topology.py"
@@ -377,6 +377,23 @@ def r8(ctx):
     s = src(ast_fn).replace(" ", "")
     ok = "values=[e.ast()foreinself.comparators]" in s and "left=self.comparators[0].ast()" in s and "comparators=[e.ast()foreinself.comparators[1:]]" in s
     ctx.decide(ok, "C12-R8", ast_fn, SEL, "BinaryInfixOperand.ast", "every operand of a chain enters the AST", "", "some operands of a chain are dropped from the generated AST")
+    # (b2) bare names become string constants; only the two marked AST nodes (the atom and the re module) survive, by marker, not by spelling
+    vn = ctx.py.func(SEL, "_RewriteNames.visit_Name")
+    keep = [n for n in walk_no_nested(vn) if isinstance(n, ast.Return) and isinstance(n.value, ast.Name) and n.value.id == "node"]
+    m_ = ctx.py.mod(SEL)
+    okk = bool(keep)
+    for r_ in keep:
+        par = m_.parents.get(r_)
+        okk = okk and isinstance(par, ast.If) and re.sub(r"\s", "", src(par.test)).replace('"', "'") in ("hasattr(node,'SINGLETON')", "getattr(node,'SINGLETON',False)")
+    last = [n for n in vn.body if isinstance(n, ast.Return)]
+    okk = okk and bool(last) and re.sub(r"\s", "", src(last[-1].value)) in ("ast.Constant(value=node.id,kind=None)", "ast.Constant(value=node.id)", "ast.Constant(node.id)")
+    ctx.decide(okk, "C12-R8", vn, SEL, "_RewriteNames.visit_Name", "a bare name is kept only when it carries the SINGLETON marker; every other name becomes a string constant", "",
+               "visit_Name keeps names by another criterion (%s): a literal spelled like an internal name (`atom`, `re`) is evaluated as that object instead of being compared as a string" % [src(m_.parents.get(r_).test) if isinstance(m_.parents.get(r_), ast.If) else "unconditional" for r_ in keep])
+    marks = {}
+    for nm in ("THIS_ATOM", "RE_MODULE"):
+        v = m_.module_assign(nm)
+        marks[nm] = isinstance(v, ast.Call) and call_name(v) == "ast.Name" and any(k.arg == "SINGLETON" and const(k.value) is True for k in v.keywords)
+    ctx.decide(all(marks.values()), "C12-R8", vn, SEL, "THIS_ATOM / RE_MODULE", "the two internal names carry the marker", "", "marker missing on %s" % [k for k, v in marks.items() if not v])
     # (c) attributes behind keywords are computed from the live topology: any memo field must be reset by every mutator
     memo_coherence(ctx, "C12-R8")
 
